@@ -478,7 +478,7 @@ class Engine:
             if symbolic:
                 return self.builtin(fn, args, kwargs)
             return self.native(fn, args, kwargs)
-        if not symbolic and not self.force_interp and not self._closure_symbolic(fn):
+        if not symbolic and not self.force_interp and not self.stubs and not self._closure_symbolic(fn):
             return self.native(fn, args, kwargs)
         if fn.__name__ in self.noop_names:
             return Opaque('<noop>')
@@ -725,6 +725,8 @@ class Engine:
                 return Sym(Z(a))
             if hasattr(a, '__pyvc_int__'):
                 return a.__pyvc_int__(self)
+            if isinstance(a, FloatQuot):
+                return a.to_int(self)
         if f is bool:
             v = args[0]
             if isinstance(v, Sym):
@@ -1107,6 +1109,9 @@ class Engine:
         if isinstance(a, Sym) or isinstance(b, Sym):
             if isinstance(a, (Opaque, str)) or isinstance(b, (Opaque, str)):
                 return Opaque('<s>')
+            if isinstance(op, ast.Div) and not isinstance(a, float) and not isinstance(b, float):
+                # int / int -> float: kept as an exact quotient; only int(.) of it is modelled (see FloatQuot)
+                return FloatQuot(Z(a), Z(b))
             if isinstance(a, float) or isinstance(b, float) or isinstance(op, ast.Div):
                 raise Unsupported('float arithmetic')
             if isinstance(a, (bytes, bytearray)) and isinstance(op, ast.Mult):
@@ -1790,6 +1795,27 @@ class HexOf:
 
     def __pyvc_isinstance__(self, cs):
         return str in cs
+
+
+class FloatQuot:
+    """num / den as a Python float (true division of two ints).  int(.) is modelled by the axiom
+         floor(num/den) <= int(num/den) <= ceil(num/den)      for 0 <= num < 2^53, den > 0
+    (IEEE-754 division is correctly rounded and monotone, and integers below 2^53 are exact: the rounded quotient cannot
+    cross an integer).  The side condition is an obligation; outside it the construct is unsupported."""
+    __pyvc_symbolic__ = True
+
+    def __init__(self, num, den):
+        self.num, self.den = num, den
+
+    def to_int(self, eng):
+        side = z3.And(self.num >= 0, self.num < 2 ** 53, self.den > 0)
+        r = solve.prove(eng.axioms + list(eng.pc), side, min(eng.timeout_ms, 5000))
+        if r.status != 'unsat':
+            raise Unsupported('float quotient outside 0 <= num < 2^53, den > 0')
+        q = fresh('fquot')
+        lo = self.num / self.den
+        eng.pc.append(z3.And(q >= lo, q <= z3.If(self.num % self.den == 0, lo, lo + 1)))
+        return Sym(q)
 
 
 class FStr:
